@@ -17,6 +17,8 @@ void World::violation(const std::string &prop_in, const std::string &rule_in, co
 	std::string prop = prop_in, rule = rule_in;
 	// containment profile: what the reference model expects for healthy peers *is* the property; keep the originating rule visible
 	std::string rl = plan.hdr.gets("relabel");
+	if (rl.empty() && faults_fired > 0) rl = plan.hdr.gets("relabel_after_fault");
+	if (rule_in == "state-not-explained-after-failed-allocation") rl.clear();   // already carries the property the run is made for
 	if (!rl.empty() && (prop == "C01" || prop == "C02" || prop == "C03" || prop == "C04" || prop == "C05" || prop == "C14" || (rl == "C20" && prop == "C08") || (rl == "C15" && (prop == "C07" || prop == "C10" || prop == "C12" || prop == "C13" || prop == "C16" || prop == "C08" || prop == "C11")))) { rule = prop + ":" + rule; prop = rl; }
 	res.violated = true; res.v.prop = prop; res.v.rule = rule; res.v.detail = detail;
 	finish(0);
@@ -43,6 +45,7 @@ void World::expect(int c, const Exp &e) {
 void World::feed_input(const Input &in) {
 	dbg("feed input t=%d c=%d fd=%d %s %.100s", in.t, in.c, in.fd, in.why.c_str(), in.text.c_str());
 	trace.tag("in"); trace.u64(in.t); trace.u64((uint64_t)in.c); trace.str(in.text);
+	shadow_log(in);
 	if (mode == "exact") resolve_silent_decisions();
 	if (mode == "exact" && model.decision_pending()) {
 		// the previous request's outcome was never signalled
@@ -371,7 +374,7 @@ void World::on_frame(Client &cl, const Frame &f) {
 			return;
 		}
 		if (want == "any") return;
-		if (cl.hs_sent && !cl.no_expect && mode != "none" && fault_turn >= 0 && f.http_status >= 500) { probe("upgrade_refused_after_injected_fault"); return; }
+		if (cl.hs_sent && !cl.no_expect && mode != "none" && fault_turn >= 0 && f.http_status >= 500) { probe("upgrade_refused_after_injected_fault"); Input in; in.t = Input::GONE; in.c = cl.idx; in.why = "upgrade refused"; shadow_log(in); return; }
 		if (cl.hs_sent && !cl.no_expect && mode != "none") {
 			if (f.http_status != 101) violation("C12", "valid-upgrade-refused", "a valid upgrade request was answered with status " + std::to_string(f.http_status));
 			std::string key = cl.policy.gets("wskey");
@@ -426,7 +429,7 @@ void World::on_frame(Client &cl, const Frame &f) {
 		for (auto &c2 : clients) for (size_t i = 0; i < c2.expq.size();) { Exp &x = c2.expq[i]; if (x.optional && x.decision >= 0 && x.decision < (int)model.decisions.size() && model.decisions[x.decision].state != 0) c2.expq.erase(c2.expq.begin() + (long)i); else i++; }
 	}
 	if (cl.closing || cl.no_expect || cl.faulty) return;
-	if (mode == "ledger") { ledger_frame(cl, f); return; }
+	if (mode == "ledger") { ledger_frame(cl, f); shadow_check_get(cl, f); return; }
 	if (mode != "exact") return;
 	std::string why;
 	for (;;) {
